@@ -9,9 +9,9 @@
 \*
 \* Common frame.  Every pseudo-class below holds only for elements in the HTML namespace
 \* (Dom!IsHtmlEl) of HTML or XHTML documents (Dom!IsHtml); :defined is the one exception as far as
-\* the namespace of the element goes.  Attribute names are looked up case-insensitively
-\* (Dom!AttrValSetCI); the keywords of the enumerated attributes type, dir and contenteditable are
-\* compared ASCII-case-insensitively.
+\* the namespace of the element goes.  Attribute names are looked up case-insensitively in HTML documents and
+\* exactly in XML / XHTML documents (Dom!AttrValSetCI); the keywords of dir and contenteditable are compared ASCII-case-insensitively
+\* everywhere, the type keyword of the selector-defined pseudo-classes like the names (HsKwT).
 \*
 \* Own document.  In HTML the content of an iframe element is a document of its own.  Whatever a
 \* definition says about "the form owner", "the group", "the ancestors", "the parent" is read inside
@@ -80,11 +80,14 @@ HsVAuto == <<97,117,116,111>>
 HsIs(d, i, nm) == IsEl(d, i) /\ NameKey(d, d.name[i]) = nm /\ IsHtmlEl(d, i)
 HsIsAny(d, i, nms) == IsEl(d, i) /\ NameKey(d, d.name[i]) \in nms /\ IsHtmlEl(d, i)
 
-HsHas(d, i, a) == \E n \in 1..Len(d.attrs[i]) : Lower(d.attrs[i][n].k) = a       \* AttrValSetCI(d, i, a) # {}
+HsHas(d, i, a) == \E n \in 1..Len(d.attrs[i]) : NameKey(d, d.attrs[i][n].k) = a       \* AttrValSetCI(d, i, a) # {}
 \* value of a content attribute, the empty string when it is absent
 HsVal(d, i, a) == LET vs == AttrValSetCI(d, i, a) IN IF vs = {} THEN <<>> ELSE CHOOSE v \in vs : TRUE
 \* keyword of an enumerated attribute
 HsKw(d, i, a) == Lower(HsVal(d, i, a))
+\* the type keyword as the DEFINITION SELECTORS of the library read it ([type=radio], [type="submit"] ...): ASCII-case-insensitive in HTML
+\* documents, exact in XML / XHTML documents (C11); :dir() reads the type with HsKw (the hand-written rule lower-cases it everywhere)
+HsKwT(d, i) == IF d.xml THEN HsVal(d, i, HsAType) ELSE Lower(HsVal(d, i, HsAType))
 
 \* ---- the element's own document ---------------------------------------------------------------
 \* ancestors inside the own document: the walk stops below an iframe
@@ -103,13 +106,13 @@ HsFormAnc(d, i) == {f \in HsAnc(d, i) : HsIs(d, f, HsNForm)}
 HsFormOwner(d, i) == IF HsFormAnc(d, i) = {} THEN 0 ELSE Max(HsFormAnc(d, i))
 
 \* ---- :checked, :default -----------------------------------------------------------------------
-HsIsInputOf(d, i, types) == HsIs(d, i, HsNInput) /\ HsHas(d, i, HsAType) /\ HsKw(d, i, HsAType) \in types
+HsIsInputOf(d, i, types) == HsIs(d, i, HsNInput) /\ HsHas(d, i, HsAType) /\ HsKwT(d, i) \in types
 HsChecked(d, i) ==
     \/ HsIsInputOf(d, i, {HsVCheckbox, HsVRadio}) /\ HsHas(d, i, HsAChecked)
     \/ HsIs(d, i, HsNOption) /\ HsHas(d, i, HsASelected)
 
 \* "button or input of type submit"
-HsIsSubmit(d, i) == HsIsAny(d, i, {HsNInput, HsNButton}) /\ HsHas(d, i, HsAType) /\ HsKw(d, i, HsAType) = HsVSubmit
+HsIsSubmit(d, i) == HsIsAny(d, i, {HsNInput, HsNButton}) /\ HsHas(d, i, HsAType) /\ HsKwT(d, i) = HsVSubmit
 \* "The first button or input of type submit in each form".  Three readings of "first .. in each
 \* form", which designate the same elements on every document in which no form is nested in another
 \* one (T-Default); nested forms are non-conforming content that an HTML5 parser never builds, but
@@ -166,14 +169,14 @@ HsTextContent(d, i) == HsCat(d, {j \in Desc(d, i) : IsText(d, j)})
 HsPlaceholderTypes == {<<>>, HsVText, HsVSearch, HsVUrl, HsVTel, HsVEmail, HsVPassword, HsVNumber}
 HsPlaceholderShown(d, i) ==
     /\ HsHas(d, i, HsAPlaceholder) /\ HsVal(d, i, HsAPlaceholder) # <<>>
-    /\ \/ /\ HsIs(d, i, HsNInput) /\ HsKw(d, i, HsAType) \in HsPlaceholderTypes
+    /\ \/ /\ HsIs(d, i, HsNInput) /\ HsKwT(d, i) \in HsPlaceholderTypes
           /\ HsVal(d, i, HsAValue) = <<>>
           /\ HsTextContent(d, i) \in {<<>>, <<10>>}
        \/ HsIs(d, i, HsNTextarea) /\ HsTextContent(d, i) \in {<<>>, <<10>>}
 
 \* ---- :enabled, :disabled ----------------------------------------------------------------------
 HsIsControl(d, i) ==
-    \/ HsIs(d, i, HsNInput) /\ HsKw(d, i, HsAType) # HsVHidden
+    \/ HsIs(d, i, HsNInput) /\ HsKwT(d, i) # HsVHidden
     \/ HsIsAny(d, i, {HsNButton, HsNSelect, HsNTextarea, HsNFieldset, HsNOptgroup, HsNOption})
 \* controls a disabled fieldset disables
 HsIsFieldsetTarget(d, i) == HsIsControl(d, i) /\ ~HsIsAny(d, i, {HsNOptgroup, HsNOption})
@@ -200,7 +203,7 @@ HsTextLikeTypes == {<<>>, HsVText, HsVSearch, HsVUrl, HsVTel, HsVEmail, HsVNumbe
                     HsVDate, HsVDatetimeLocal, HsVMonth, HsVTime, HsVWeek}
 HsEditingHost(d, i) == HsHas(d, i, HsAContenteditable) /\ HsKw(d, i, HsAContenteditable) \in {<<>>, HsVTrue}
 HsReadWrite(d, i) ==
-    \/ /\ HsIs(d, i, HsNTextarea) \/ (HsIs(d, i, HsNInput) /\ HsKw(d, i, HsAType) \in HsTextLikeTypes)
+    \/ /\ HsIs(d, i, HsNTextarea) \/ (HsIs(d, i, HsNInput) /\ HsKwT(d, i) \in HsTextLikeTypes)
        /\ ~HsHas(d, i, HsAReadonly) /\ ~HsDisabled(d, i)
     \/ HsEditingHost(d, i)
 HsReadOnly(d, i) == ~HsReadWrite(d, i)
